@@ -112,6 +112,14 @@ def explicit(tier, seed):  # noqa: C901
                                faults=[{"match": {"op": "checkpoint", "n": k}, "err": err, "when": when, "delay_ms": 30 if (sname in ("par", "seq") and (k + len(when)) % 2) else 0}],
                                opts={"hang_s": 3.0, **({"perturb": {"p": 0.0, "seed": i, "files": ["threading.py", "state.py", "executor.py"],
                                                                    "after_sync": {"p": 0.8, "sleep": 0.003}}} if (k + len(sname)) % 3 == 0 else {})}, **extra)
+    # the handler is done before the background checkpoint thread has executed its first statements (a workflow with nothing to
+    # wait for, a slow thread start): the stop request must still reach that thread
+    for nm, body, exp in (("empty", [], {"kind": "SUCCEEDED", "why": "no-operations"}),
+                          ("raise-at-once", [{"k": "raise", "cls": "ValueError", "msg": "early"}], {"kind": "FAILED", "etype": "ValueError", "why": "user-ValueError-at-once"}),
+                          ("one-step", [{"k": "step", "val": 1}], {"kind": "SUCCEEDED", "why": "one-step"})):
+        for sl in (0.002, 0.02, 0.1):
+            yield case("batcher-starts-late-%s" % nm, body, exp,
+                       opts={"hang_s": 3.0, "perturb": {"p": 0.0, "seed": i, "files": ["state.py"], "slow_thread": {"re": r"^dex-handler_0$", "sleep": sl}}})
     # an HTTP-200 checkpoint answer the SDK cannot interpret (enum value of a newer service, missing member): a failed call like any other
     for sname, body in shapes.items():
         ncalls = {"seq": 5, "child": 4, "big": 2, "child-raises": 5, "nested-child-raises": 5, "par": 6, "big-step": 3}[sname]
